@@ -191,6 +191,152 @@ func findFunc(f *ast.File, recv, name string) *ast.FuncDecl {
 	return nil
 }
 
+// ---- the borrowed block batch ----------------------------------------------------------------
+//
+// BodyDb.Append creates the block batch and hands it to StateProcessor.Apply -> Process ->
+// ProcessQiTx / ApplyTransaction (-> vm.NewEVM: EVM.Batch -> AddNewLock / redeem) / Finalize /
+// TrimBlock. The batch is atomic with the head pointer only if NONE of these borrowers commits,
+// resets or replays it, and if none of them writes a block-owned record past it directly to a
+// database. borrowedBatch scans every function of core/*.go with a parameter of type ethdb.Batch and
+// every function of core/vm/*.go (tests and verif_ hook files excluded) and counts
+//   funcs   functions with an ethdb.Batch parameter (non-vacuity)
+//   flush   calls <param>.Write() / .Reset() / .Replay(..), and <x>.Batch.Write() / .Reset() / .Replay(..)
+//   writes  calls rawdb.<Writer>(dst, ..) whose destination is the parameter / an <x>.Batch field
+//   bypass  calls rawdb.<Writer>(dst, ..) with any other destination
+// where <Writer> ranges over the functions of core/rawdb whose first parameter is an
+// ethdb.KeyValueWriter / Batch / Database / KeyValueStore and whose name starts with Write, Delete,
+// Create or Undo (read from core/rawdb's AST).
+type borrowStats struct{ funcs, flush, writes, bypass int }
+
+func isEthdbType(e ast.Expr, names ...string) bool {
+	sel, ok := e.(*ast.SelectorExpr)
+	if !ok || !isIdent(sel.X, "ethdb") {
+		return false
+	}
+	for _, n := range names {
+		if sel.Sel.Name == n {
+			return true
+		}
+	}
+	return false
+}
+
+func goFiles(dir string) []string {
+	ents, err := os.ReadDir(dir)
+	if err != nil {
+		die("read %s: %v", dir, err)
+	}
+	var out []string
+	for _, e := range ents {
+		n := e.Name()
+		if e.IsDir() || !strings.HasSuffix(n, ".go") || strings.HasSuffix(n, "_test.go") || strings.HasPrefix(n, "verif_") {
+			continue
+		}
+		out = append(out, filepath.Join(dir, n))
+	}
+	return out
+}
+
+func rawdbWriters(fset *token.FileSet, repo string) map[string]bool {
+	w := map[string]bool{}
+	for _, p := range goFiles(filepath.Join(repo, "core", "rawdb")) {
+		f, err := parser.ParseFile(fset, p, nil, 0)
+		if err != nil {
+			die("parse %s: %v", p, err)
+		}
+		for _, d := range f.Decls {
+			fd, ok := d.(*ast.FuncDecl)
+			if !ok || fd.Recv != nil || fd.Type.Params == nil || len(fd.Type.Params.List) == 0 {
+				continue
+			}
+			n := fd.Name.Name
+			if !(strings.HasPrefix(n, "Write") || strings.HasPrefix(n, "Delete") || strings.HasPrefix(n, "Create") || strings.HasPrefix(n, "Undo")) {
+				continue
+			}
+			if isEthdbType(fd.Type.Params.List[0].Type, "KeyValueWriter", "Batch", "Database", "KeyValueStore") {
+				w[n] = true
+			}
+		}
+	}
+	return w
+}
+
+func borrowedBatch(fset *token.FileSet, repo string) borrowStats {
+	writers := rawdbWriters(fset, repo)
+	if len(writers) < 20 {
+		die("core/rawdb: only %d writer functions found, schema of the scan outdated", len(writers))
+	}
+	var st borrowStats
+	isBatchField := func(e ast.Expr) bool {
+		sel, ok := e.(*ast.SelectorExpr)
+		return ok && sel.Sel.Name == "Batch"
+	}
+	scan := func(path string, allFuncs bool) {
+		f, err := parser.ParseFile(fset, path, nil, 0)
+		if err != nil {
+			die("parse %s: %v", path, err)
+		}
+		for _, d := range f.Decls {
+			fd, ok := d.(*ast.FuncDecl)
+			if !ok || fd.Body == nil {
+				continue
+			}
+			params := map[string]bool{}
+			for _, fld := range fd.Type.Params.List {
+				if isEthdbType(fld.Type, "Batch") {
+					for _, n := range fld.Names {
+						params[n.Name] = true
+					}
+				}
+			}
+			if len(params) > 0 {
+				st.funcs++
+			} else if !allFuncs {
+				continue
+			}
+			borrowed := func(e ast.Expr) bool {
+				if id, ok := e.(*ast.Ident); ok && params[id.Name] {
+					return true
+				}
+				return isBatchField(e)
+			}
+			ast.Inspect(fd.Body, func(x ast.Node) bool {
+				c, ok := x.(*ast.CallExpr)
+				if !ok {
+					return true
+				}
+				sel, ok := c.Fun.(*ast.SelectorExpr)
+				if !ok {
+					return true
+				}
+				switch sel.Sel.Name {
+				case "Write", "Reset", "Replay":
+					if borrowed(sel.X) {
+						st.flush++
+						fmt.Printf("c11order: FLUSH of a borrowed batch: %s %s\n", fset.Position(c.Pos()), fd.Name.Name)
+					}
+				}
+				if isIdent(sel.X, "rawdb") && writers[sel.Sel.Name] && len(c.Args) > 0 {
+					if borrowed(c.Args[0]) {
+						st.writes++
+					} else {
+						st.bypass++
+						fmt.Printf("c11order: rawdb write past the borrowed batch: %s %s %s\n", fset.Position(c.Pos()), fd.Name.Name, sel.Sel.Name)
+					}
+				}
+				return true
+			})
+		}
+	}
+	for _, p := range goFiles(filepath.Join(repo, "core")) {
+		scan(p, false)
+	}
+	for _, p := range goFiles(filepath.Join(repo, "core", "vm")) {
+		scan(p, true)
+	}
+	return st
+}
+
 func coqList(evs []int) string {
 	s := make([]string, len(evs))
 	for i, e := range evs {
@@ -294,6 +440,8 @@ func main() {
 		return nil
 	})
 
+	bs := borrowedBatch(fset, *repo)
+
 	var sb strings.Builder
 	sb.WriteString("(* GENERATED by harness/gen/c11order from the go-quai source tree — do not edit.\n")
 	sb.WriteString("   Event codes: 1 WriteCanonicalHash(db) 2 AppendBlock 3 WriteHeadBlockHash(db) 4 DeleteCanonicalHash(db)\n")
@@ -311,8 +459,14 @@ func main() {
 	fmt.Fprintf(&sb, "(* core/state_processor.go:StateProcessor.Apply *)\nDefinition apply_calls : list N := %s.\n", coqList(applyEv))
 	fmt.Fprintf(&sb, "(* core/headerchain.go:loadLastState *)\nDefinition load_calls : list N := %s.\n", coqList(events(lls.Body)))
 	fmt.Fprintf(&sb, "(* call sites of rawdb.ReadProcessedState outside core/rawdb and tests *)\nDefinition processed_state_read_sites : N := %d.\n", reads)
+	sb.WriteString("\n(* The borrowed block batch: functions of core/*.go with an ethdb.Batch parameter and all functions of\n   core/vm/*.go (BodyDb.Append's batch is handed to Apply, Process, ProcessQiTx, ApplyTransaction, EVM.Batch,\n   AddNewLock, Finalize, TrimBlock). *)\n")
+	fmt.Fprintf(&sb, "(* functions with an ethdb.Batch parameter *)\nDefinition borrowed_batch_functions : N := %d.\n", bs.funcs)
+	fmt.Fprintf(&sb, "(* calls of Write / Reset / Replay on such a parameter or on an <x>.Batch field *)\nDefinition borrowed_batch_flush_sites : N := %d.\n", bs.flush)
+	fmt.Fprintf(&sb, "(* rawdb writer calls in these functions whose destination is the borrowed batch *)\nDefinition borrowed_batch_write_sites : N := %d.\n", bs.writes)
+	fmt.Fprintf(&sb, "(* rawdb writer calls in these functions with any other destination (a database) *)\nDefinition borrowed_batch_bypass_sites : N := %d.\n", bs.bypass)
 	if err := os.WriteFile(*out, []byte(sb.String()), 0o644); err != nil {
 		die("write: %v", err)
 	}
+	fmt.Printf("c11order: borrowed batch: %d functions, %d flush sites, %d writes into it, %d writes past it\n", bs.funcs, bs.flush, bs.writes, bs.bypass)
 	fmt.Printf("c11order: head_in_batch=%v ext=%v rollback=%d events forward=%v append=%v apply=%v\n", headInBatch, ext, len(rollback), forward, appendEv, applyEv)
 }
